@@ -311,7 +311,7 @@ EXTRA_TEXT = {
  'C03': ' Besides the modelled cache state machine: an object-history fuzzer over ALL public methods (random and systematic histories on one long-lived fitter: the same method with the same arguments, with one argument — one axis of a pair in 2-D, the wrapped method, each value of a string option — changed, two integer arguments moved in opposite directions, same-module methods in sequence; fitters created with / without x; the caller re-using its buffers) in which every call must give what a fresh fitter gives.',
  'C06': ' Further theorems: `kron_penalty_vec`, `doc2d_is_kron_sum`, `asm2d_den`, `doc2d_apply_vec` (the 2-D documented system is diag(w) + the Kronecker sum and acts on the row-major vec as row / column operators), `jbcd_asm_den` (+ `jbcd_signal_ne_documented`: the coded signal system differs from the documented one by the factor 2 on gamma — observation), `converged_pair_solves`, `exhausted_returns_fresh_state`, `stateful_refines_skeleton`, `brpls_pair_solves`, `jbcd_pair_solves`; captured 2-D sparse systems and jbcd band systems against the Lean assembly, loop models fed with the decisions of real runs. The 2-D returned-pair certificates run with the data and the weights in every memory layout (C / Fortran order, transposed and strided views), independently.',
  'C07': ' Every section also on x-axes of unusual magnitude; all cases have a working replay. Further theorems: `pspline_iasls_extra` (+ `_full`, `_rhs`), `pspline_drpls_asm_den`, `pspline_aspls_asm_den` (+ `_midpoints`), `pspline_drpls_aspls_rhs`, `lowerToFull_den`, `addDiagonalsFull_den`, `shiftRows_reverse_colscale_any`; the systems captured at `PenalizedSystem.solve` for pspline_iasls / drpls / aspls are compared with the Lean assembly over solvers 1-4.',
- 'C08': ' 2-D max_cross: the documented monomial set, written down independently of the code, for all five 2-D polynomial methods over unequal order pairs and every max_cross: excluded coefficients are zero, the baseline lies in the allowed span, exact normal equations for poly.',
+ 'C08': ' 2-D max_cross modelled and proved: `maxCross_kept_iff`, `colIndex_bijection`, `maxCross_none_iff`, `maxCross_zero`, `maxCross_mono`, `allowed_downward_closed`, `vander_masked_apply`, `convertCoef2d_preserves_exclusion`, `maxCross_returned_coef`; the kept-column pattern of the real _PolyHelper2D (fresh and re-used) against the model for all order pairs <= 4 and every max_cross. 2-D max_cross: the documented monomial set, written down independently of the code, for all five 2-D polynomial methods over unequal order pairs and every max_cross: excluded coefficients are zero, the baseline lies in the allowed span, exact normal equations for poly.',
  'C09': ' Route A for the stop rule: `loops_stop_first`, `loops_tol_tested` over the loops translated from the source. Route A: the final weight expression of ten of the eleven rules is parsed from the source text of _weighting.py on every run (Gen/WeightExprs); `gen_<rule>_eq_model` proves it equal to the hand model and `src_<rule>_range` / `src_<rule>_antitone` / `src_quantile_bounds` transfer the theorems to the source expression (a changed constant, sign or cap breaks a named theorem); the translated expression is also evaluated in Float against the real functions. Histories on one long-lived fitter whose caller re-uses its data buffer: the weights of every call against a fresh fitter.',
  'C10': ' Every 1-D method is also run on data with a 1e6 offset and little noise and on data scaled by 1e-6 / 1e6 in all configurations (a fall-back must be as accurate as the accelerated path, not only algebraically equal).',
  'C11': ' In the reconfiguration histories the real systems are USED in place between reconfigurations (add_diagonal + solve with and without overwrite_ab; solve_pspline), as the methods use them.',
